@@ -79,6 +79,9 @@ def runner_lines(tr: Trace) -> tuple[list[str], list[str]]:
     outs.append("ok")
     puts = list(tr.puts)
     issued = 0
+    # ctx.send_event calls of scripted steps: event object -> (sending step, its worker id)
+    sends = {id(rec[5]["obj"]): (rec[1], rec[5]["wid"]) for rec in tr.steps
+             if rec[0] == "sent" and rec[5].get("obj") is not None and rec[5].get("wid") is not None}
     step_writes = [(e, idx) for (e, _t, idx, origin) in tr.stream if origin == "step"]
     sw = 0
     all_calls_index = {id(c): i for i, c in enumerate(tr.calls)}
@@ -89,7 +92,14 @@ def runner_lines(tr: Trace) -> tuple[list[str], list[str]]:
             ops.append("swrite " + enc.ev(step_writes[sw][0])); outs.append("ok")
             sw += 1
         while issued < len(puts) and puts[issued][1] <= k:
-            ops.append("ext " + enc.tick(puts[issued][0])); outs.append("ok")
+            snd = sends.get(id(getattr(puts[issued][0], "event", None))) if puts[issued][2] == "internal" else None
+            if snd is not None and isinstance(puts[issued][0], T.TickAddEvent):
+                # a running invocation called ctx.send_event: the model derives the tick (its recovery counts) from the
+                # invocation's in-progress entry; the implementation's tick must be that tick
+                ops.append("ssend %s %d %s %s" % (enc.step_id(snd[0]), snd[1], enc.step_id(puts[issued][0].step_name), enc.ev(puts[issued][0].event)))
+                outs.append(enc.tick(puts[issued][0]))
+            else:
+                ops.append("ext " + enc.tick(puts[issued][0])); outs.append("ok")
             issued += 1
         tk = c.tick
         if isinstance(tk, T.TickStepResult):
